@@ -46,7 +46,9 @@ func randCoord(r *rand.Rand, o *progOpts) float32 {
 	case 6:
 		if o.specials {
 			return []float32{float32(math.NaN()), float32(math.Inf(1)), float32(math.Inf(-1)), 1e38, -1e38, 1e-40, float32(math.Copysign(0, -1)), 3.4028235e38,
-				127.99, 127.9921875, 127.995, -128, -128.004, 128, 1 << 24, 1000.25}[r.Intn(16)]
+				127.99, 127.9921875, 127.995, -128, -128.004, 128, 1 << 24, 1000.25,
+				// the largest numbers below a power of two (mantissa all ones: rounding to 30 bits must not carry out of it)
+				fbits(0x43ffffff), fbits(0x43fffffe), fbits(0xc3ffffff), fbits(0x3fffffff), fbits(0x4b7fffff), fbits(0x7f7ffffe)}[r.Intn(22)]
 		}
 		return float32(r.Intn(128) - 64)
 	case 7:
@@ -233,6 +235,10 @@ func genProgram(r *rand.Rand, o *progOpts) []Call {
 				c = mkCall("Reset", -8, 0.5, 24, 16.25)
 			case 3:
 				c = mkCall("Reset", -1000.3, -7, 2000.25, 1e6)
+			}
+			if r.Intn(5) == 0 {
+				// a viewBox less than one unit across (coordinates are quantised to 1/64 of a unit all the same)
+				c = [](Call){mkCall("Reset", 0, 0, 0.5, 0.75), mkCall("Reset", -0.25, -0.25, 0.25, 0.25), mkCall("Reset", 3, 3, 3.015625, 4)}[r.Intn(3)]
 			}
 			pal := defaultPal()
 			for i := 0; i < r.Intn(5); i++ {
